@@ -7,13 +7,13 @@ Local Open Scope Z_scope.
    an explicit interleaving of one cancel call and one binding, after which everything is quiescent, the child
    is registered beneath the cancelled root and is not cancelled.  (Replayed on the real library by the check.) *)
 Theorem cancel_reaches_descendants_refuted_for_two_mutexes :
-  run_ctx false bad_infos [0; 1] [[0; 0]; [1; 2]] bad_sched = (true, false, true).
+  run_ctx false false bad_infos [0; 1] [[0; 0]; [1; 2]] bad_sched = (true, false, true).
 Proof. exact two_mutex_protocol_refuted_proof. Qed.
 Print Assumptions cancel_reaches_descendants_refuted_for_two_mutexes.
 
 (* With the propagator also holding the binder's mutex (the repair) the same interleaving is fine ... *)
 Theorem same_mutex_repairs_the_witness :
-  run_ctx true bad_infos [0; 1] [[0; 0]; [1; 2]] bad_sched = (true, true, true).
+  run_ctx true true bad_infos [0; 1] [[0; 0]; [1; 2]] bad_sched = (true, true, true).
 Proof. exact same_mutex_protocol_same_schedule. Qed.
 Print Assumptions same_mutex_repairs_the_witness.
 
@@ -23,27 +23,49 @@ Print Assumptions same_mutex_repairs_the_witness.
    quiescence is reached, every bound descendant of a cancelled context is cancelled, nothing else is.
    This is a bounded result about these configurations, not the general theorem (see DESIGN.md, C04 partial). *)
 Theorem cancel_reaches_descendants_same_mutex_small :
-  explore true bad_infos [0; 1] [[0; 0]; [1; 2]] 2 14 = true /\
-  explore true sc_infos [0; 1] [[0; 0]; [1; 2]] 2 14 = true.
+  explore true true bad_infos [0; 1] [[0; 0]; [1; 2]] 2 14 = true /\
+  explore true true sc_infos [0; 1] [[0; 0]; [1; 2]] 2 14 = true.
 Proof. exact same_mutex_all_schedules_small. Qed.
 Print Assumptions cancel_reaches_descendants_same_mutex_small.
 
 Theorem cancel_reaches_descendants_same_mutex_tree4 :
-  explore true tree4 [0; 1] [[0; 0]; [1; 2]; [1; 3]] 3 9 = true.
+  explore true true tree4 [0; 1] [[0; 0]; [1; 2]; [1; 3]] 3 9 = true.
 Proof. exact same_mutex_all_schedules_tree4. Qed.
 Print Assumptions cancel_reaches_descendants_same_mutex_tree4.
 
-(* EXHAUSTIVE over all interleavings (checked closed sets, Lib/Explore.v) of four scenarios of the repaired protocol — the witness'
-   shape, the other list order, a three-level tree with two binders, cancels at two levels racing with a bind: at quiescence every
+(* EXHAUSTIVE over all interleavings (checked closed sets, Lib/Explore.v) of six scenarios of the repaired protocol — the witness'
+   shape, the other list order, a three-level tree with two binders, cancels at two levels racing with a bind, one and two contexts
+   bound beneath a parent-less context that is being cancelled: at quiescence every
    registered context beneath a context whose cancel call won is cancelled and nothing else is; before quiescence some thread
    can always step (no deadlock on the two mutexes).  The protocol as found fails the same check (two_mutexes_fail_exploration). *)
 From OTV Require Import Lib.Explore CtxExplore.
 Theorem cancel_reaches_descendants_all_interleavings : forall s c,
-  In s ctx_scenarios -> reach (cstep true (s_infos s)) (s_init s) c -> ctx_good true (s_infos s) c = true.
+  In s ctx_scenarios -> reach (cstep true true (s_infos s)) (s_init s) c -> ctx_good true true (s_infos s) c = true.
 Proof. exact ctx_all_interleavings. Qed.
 Print Assumptions cancel_reaches_descendants_all_interleavings.
 
 Theorem protocol_as_found_fails_exploration :
-  explore_all (cstep false (s_infos S_witness)) ccfg_dec (ctx_good false (s_infos S_witness)) (s_init S_witness) 60000 = false.
+  explore_all (cstep false false (s_infos S_witness)) ccfg_dec (ctx_good false false (s_infos S_witness)) (s_init S_witness) 60000 = false.
 Proof. exact two_mutexes_fail_exploration. Qed.
 Print Assumptions protocol_as_found_fails_exploration.
+
+(* Second defect (found while preparing the general proof): in bind_to_impl's branch for a parent WITHOUT a parent (an isolated / root context)
+   the new context registers itself and then copies the parent's flag with a load followed by a store.  A cancellation of the parent
+   that propagates between the two marks the new context and is then overwritten by the stale 0: quiescent, bound beneath the
+   cancelled context, not cancelled.  Explicit interleaving (replayed on the real library, with delays injected before the accesses
+   to the child's flag, by the check's ctx-root scenario): *)
+Theorem cancel_misses_child_of_parentless_context_refuted :
+  run_ctx true false root_infos [0] [[1; 1]; [0; 0]] root_bad_sched = (true, false, true).
+Proof. exact root_copy_refuted_proof. Qed.
+Print Assumptions cancel_misses_child_of_parentless_context_refuted.
+
+(* the repair (copy the parent's flag only when it is set) survives that interleaving, and every other one (S_root_child, S_root_two above) *)
+Theorem raise_only_repairs_the_witness :
+  run_ctx true true root_infos [0] [[1; 1]; [0; 0]] root_bad_sched = (true, true, true).
+Proof. exact root_copy_raise_only_same_schedule. Qed.
+Print Assumptions raise_only_repairs_the_witness.
+
+Theorem unconditional_copy_fails_exploration :
+  explore_all (cstep true false (s_infos S_root_child)) ccfg_dec (ctx_good true false (s_infos S_root_child)) (s_init S_root_child) 60000 = false.
+Proof. exact root_copy_fails_exploration. Qed.
+Print Assumptions unconditional_copy_fails_exploration.
